@@ -124,7 +124,14 @@ def translate():
     need(tpcn_bounded or ("self.periodic=None" not in tst and "self.reflective=None" not in tst), tin,
          "tpCN drops only one of the two boundary options", "mcmc.py:TPCNRunner.__init__")
     rin = get_function(mc, "RWMRunner.__init__")
-    rwm_keeps = all("periodic" not in x and "reflective" not in x for x in [_ns(x) for x in strip_doc(rin.body)])
+    rst = [_ns(x) for x in strip_doc(rin.body)]
+    need(rst and rst[0] == "super().__init__(*args,**kwargs)", rin, "runner initialisation", "mcmc.py:RWMRunner.__init__")
+    # RWM: wrapping a periodic coordinate is a translation (exact for every scale matrix); folding at a reflective wall is
+    # symmetric only for scale matrices that do not couple that coordinate to the others, so the runner must not fold
+    rwm_rule = "self.reflective=None" in rst and all("periodic" not in x for x in rst)
+    pr = _ns(get_function(mc, "RWMRunner._propose"))
+    need("returnapply_boundary_conditions(proposal,self.periodic,self.reflective)" in pr, rin, "RWM proposal goes through the boundary map with the runner's own lists",
+         "mcmc.py:RWMRunner._propose")
     bin_ = _ns(get_function(mc, "BaseMCMCRunner.__init__"))
     need("self.periodic=periodic" in bin_ and "self.reflective=reflective" in bin_, rin, "base runner stores the boundary options", "mcmc.py")
     text = f"""(* GENERATED from /repo/tempest/mcmc.py (TPCNRunner, RWMRunner, BaseMCMCRunner.run) by tools/props/c03.py *)
@@ -145,7 +152,7 @@ Definition alpha_is_min_one_exp_nan_to_zero : bool := true.
 Definition out_of_cube_proposals_are_rejected : bool := {str(bool(cube_rule_rejects)).lower()}.
 Definition inverse_and_cholesky_are_of_the_mode_scale_matrix : bool := true.
 Definition tpcn_rejects_on_every_coordinate : bool := {str(bool(tpcn_bounded and cube_rule_rejects)).lower()}.
-Definition rwm_wraps_and_folds_designated_coordinates : bool := {str(bool(rwm_keeps)).lower()}.
+Definition rwm_wraps_periodic_and_rejects_at_reflective_walls : bool := {str(bool(rwm_rule and cube_rule_rejects)).lower()}.
 """
     write_if_changed(COQ / "Gen" / "Kernel.v", text)
 
@@ -397,6 +404,36 @@ def stationarity(run, tier):
     if abs(z) > 6:
         run.fail("reflective-target-not-invariant", f"tpcn with a reflective coordinate (mode mean 0.12): mean z={z:.1f}", kernel="tpcn",
                  n_walkers=n_walk, seed=313)
+    # (c'') two coordinates and a CORRELATED scale matrix: the first coordinate periodic / reflective, the second interior.
+    # paired statistics (after - before on the same exact draws), so the check is sensitive to small drifts
+    s1 = 0.1
+    rho = 0.8
+    cov2 = [[0.02, rho * math.sqrt(0.02 * 0.01)], [rho * math.sqrt(0.02 * 0.01), 0.01]]
+    ref2 = dict(draw=lambda nr, n: np.column_stack([np.abs(sh * nr.randn(n)), 0.5 + s1 * nr.randn(n)]),
+                logl=lambda v: -0.5 * float(v[0] ** 2) / sh ** 2 - 0.5 * float((v[1] - 0.5) ** 2) / s1 ** 2, mean=[0.0, 0.5], cov=cov2, dof=5.0)
+    per2 = dict(draw=lambda nr, n: np.column_stack([(nr.vonmises(0.0, kappa, size=n) / (2 * np.pi)) % 1.0, 0.5 + s1 * nr.randn(n)]),
+                logl=lambda v: kappa * math.cos(2 * math.pi * v[0]) - 0.5 * float((v[1] - 0.5) ** 2) / s1 ** 2, mean=[0.5, 0.5], cov=cov2, dof=5.0)
+
+    def paired(a, b, f):
+        dlt = f(b) - f(a)
+        return float(np.mean(dlt) / (np.std(dlt) / math.sqrt(len(dlt)) + 1e-300))
+
+    for kind in ("rwm", "tpcn"):
+        for name, t, kw in (("reflective", ref2, dict(reflective=np.array([0]))), ("periodic", per2, dict(periodic=np.array([0])))):
+            u0, u1 = ensemble(kind, t, n_walk, 505, n_steps=8, **kw)
+            run.case(key=("stationarity-correlated", kind, name), nontrivial=True)
+            if name == "reflective":
+                zs_ = dict(u0=paired(u0, u1, lambda u: u[:, 0]), u1=paired(u0, u1, lambda u: u[:, 1]),
+                           cross=paired(u0, u1, lambda u: u[:, 0] * (u[:, 1] - 0.5)))
+            else:
+                zs_ = dict(cos=paired(u0, u1, lambda u: np.cos(2 * np.pi * u[:, 0])), sin=paired(u0, u1, lambda u: np.sin(2 * np.pi * u[:, 0])),
+                           u1=paired(u0, u1, lambda u: u[:, 1]), cross=paired(u0, u1, lambda u: np.sin(2 * np.pi * u[:, 0]) * (u[:, 1] - 0.5)))
+            run.extra[f"correlated_{name}_z_{kind}"] = {k_: round(v_, 2) for k_, v_ in zs_.items()}
+            if max(abs(v_) for v_ in zs_.values()) > 6:
+                run.fail("correlated-scale-target-not-invariant",
+                         f"{kind} with coordinate 0 {name} and a mode scale matrix of correlation {rho}: exact draws of a product target drift after 8 steps "
+                         f"(paired z: {', '.join(f'{k_}={v_:.1f}' for k_, v_ in zs_.items())}): folding a correlated step at a wall is not symmetric",
+                         kernel=kind, boundary=name, n_walkers=n_walk, seed=505, scale_matrix=cov2)
     # (d) HARD boundary: the same half-Gaussian with no boundary option (out-of-cube proposals must be rejected, not redrawn)
     for kind in ("rwm", "tpcn"):
         u0, u1 = ensemble(kind, half, n_walk, 404, n_steps=8)
@@ -418,13 +455,14 @@ def main(tier, seed):
                 "source; (ii) the Metropolis test with injected uniforms (incl. 0.0 and nextafter(1,0)); (iii) ensemble "
                 "stationarity with fixed seeds: exact draws from an interior Gaussian / a wrapped target on a periodic "
                 "coordinate / a half-Gaussian on a reflective coordinate must stay distributed as the target after "
-                "mutation (|z| <= 6), including a half-Gaussian abutting a hard boundary (no boundary option).")
+                "mutation (|z| <= 6), including a half-Gaussian abutting a hard boundary (no boundary option) and two-coordinate product "
+                "targets with a periodic / reflective first coordinate and a mode scale matrix of correlation 0.8 (paired statistics).")
     run.assumptions = [
         "measure-theoretic lift: theorems are about densities (pointwise detailed balance); the two integral facts "
         "(t = scale mixture of normals; normalisation of the inverse-gamma conditional) are classical and not formalised",
         "step-size adaptation during a mutation phase is not covered (each step's kernel at fixed sigma is what is proved)",
-        "correlated multi-coordinate reflective folds and tpCN with folded coordinates are not claimed (reference density "
-        "is evaluated at the folded point)",
+        "neither kernel folds at reflective walls any more (tpCN: 055ee3c, RWM: this session's repair); the fold theorems are kept "
+        "as the one-coordinate fact and its several-coordinate refutation",
         "ensemble checks are statistical validations with fixed seeds; they exhibit failures, they prove nothing",
     ]
     rng = random.Random(seed)
